@@ -654,7 +654,9 @@ func (idx *indexer) indexSince(txID uint64) error {
 
 			n := serializeIndexableEntry(b[:], txmd, e, kvmd)
 
-			idx._kvs[indexableEntries].K = targetKey
+			// the key must be copied: targetKey may alias the entry buffers of idx.tx,
+			// which the next readTx of this bulk overwrites before BulkInsert runs
+			idx._kvs[indexableEntries].K = append(idx._kvs[indexableEntries].K[:0], targetKey...)
 			idx._kvs[indexableEntries].V = b[:n]
 			idx._kvs[indexableEntries].T = txID + uint64(i)
 
@@ -719,7 +721,7 @@ func (idx *indexer) indexSince(txID uint64) error {
 
 					n := serializeIndexableEntry(b[:], txmd, prevEntry, kvmd.Bytes())
 
-					idx._kvs[indexableEntries].K = targetPrevKey
+					idx._kvs[indexableEntries].K = append(idx._kvs[indexableEntries].K[:0], targetPrevKey...)
 					idx._kvs[indexableEntries].V = b[:n]
 					idx._kvs[indexableEntries].T = txID + uint64(i)
 
